@@ -426,7 +426,7 @@ func genEP(t *rapid.T) EP {
 		c.RepIn = append(c.RepIn, 0)
 		c.RepOut = append(c.RepOut, 0)
 	}
-	bigOdds := 150
+	bigOdds := 400 // the 65535/65536 shapes are enumerated on every run; generated ones add variety
 	if pbt.Thorough() {
 		bigOdds = 25
 	}
@@ -500,10 +500,43 @@ func genEP(t *rapid.T) EP {
 	return c
 }
 
+// epShape is a deterministic boundary case: one small transaction with one side
+// (inputs, outputs, or the list itself) replicated to count.
+func epShape(side string, count int, ext bool, delta int) EP {
+	m := Shape{NIn: 1, NOut: 1, Len: 2, Salt: count % 7}.model()
+	c := EP{Txs: []ref.Tx{m}, Ext: []bool{ext}, RepIn: []int{0}, RepOut: []int{0}, Mut: "none", Width: 3, CountDelta: delta,
+		Dirty: Shape{NIn: 2, NOut: 3, Len: 1, Salt: 9}.model(), DirtyList: 2, Chunks: []int{5, 64, 1}}
+	switch side {
+	case "in":
+		c.RepIn[0] = count
+	case "out":
+		c.RepOut[0] = count
+	default:
+		c.Txs[0].In = nil
+		c.RepTx = count
+	}
+	return c
+}
+
 func TestEntryPoints(t *testing.T) {
 	pbt.Run(t, pbt.Sub[EP]{
 		Name: "entrypoints", Quick: 9000, Thorough: 200000,
-		Gen:   genEP,
-		Check: checkEP,
+		Gen:      genEP,
+		Check:    checkEP,
+		EnumDesc: "one fixed transaction with its inputs, its outputs or the list of transactions replicated to {252, 253} x {standard, extended} x list count {exact, one fewer, one more} and to {65535, 65536} (standard, exact count)",
+		Enum: func(tier string, yield func(EP)) {
+			for _, side := range []string{"in", "out", "tx"} {
+				for _, n := range []int{252, 253} {
+					for _, ext := range []bool{false, true} {
+						for _, d := range []int{0, -1, 1} {
+							yield(epShape(side, n, ext, d))
+						}
+					}
+				}
+				for _, n := range []int{65535, 65536} {
+					yield(epShape(side, n, false, 0))
+				}
+			}
+		},
 	})
 }
